@@ -856,6 +856,13 @@ func (s *Server) InjectPacket(cl *Client, pk packets.Packet) error {
 
 // processPublish processes a Publish packet.
 func (s *Server) processPublish(cl *Client, pk packets.Packet) error {
+	if pk.Properties.TopicAliasFlag && pk.Properties.TopicAlias > 0 { // [MQTT-3.3.2-11]
+		pk.TopicName = cl.State.TopicAliases.Inbound.Set(pk.Properties.TopicAlias, pk.TopicName)
+		if pk.TopicName == "" {
+			return packets.ErrTopicAliasInvalid // the alias was never bound to a topic on this connection [MQTT-3.3.2-7]
+		}
+	}
+
 	if !cl.Net.Inline && !IsValidFilter(pk.TopicName, true) {
 		return s.refusePublish(cl, pk, packets.ErrTopicNameInvalid)
 	}
@@ -886,10 +893,6 @@ func (s *Server) processPublish(cl *Client, pk packets.Packet) error {
 				atomic.AddInt64(&s.Info.Inflight, -1)
 			}
 		}
-	}
-
-	if pk.Properties.TopicAliasFlag && pk.Properties.TopicAlias > 0 { // [MQTT-3.3.2-11]
-		pk.TopicName = cl.State.TopicAliases.Inbound.Set(pk.Properties.TopicAlias, pk.TopicName)
 	}
 
 	if pk.FixedHeader.Qos > s.Options.Capabilities.MaximumQos {
